@@ -263,6 +263,41 @@ func cmdSelftest(args []string) {
 			fmt.Printf("ok seed=%d %s\n", seed, hashes[0])
 		}
 	}
+	// process-history independence: the same seeds, one after the other in ONE process, must give
+	// the same hashes as each seed in a process of its own (package-level state in the code under
+	// test or in the harness would show here; workers run many seeds per process)
+	var list []string
+	fresh := map[string]string{}
+	for i := 0; i < *n && i < 6; i++ {
+		seed := seedFor(424242, i)
+		list = append(list, fmt.Sprint(seed))
+		cmd := exec.Command(self, "seq", "-profile", *profile, "-seeds", fmt.Sprint(seed))
+		outb, err := cmd.CombinedOutput()
+		if err != nil {
+			fmt.Println("selftest: seq run failed:", err, string(outb))
+			os.Exit(2)
+		}
+		fresh[fmt.Sprint(seed)] = strings.TrimSpace(string(outb))
+	}
+	cmd := exec.Command(self, "seq", "-profile", *profile, "-seeds", strings.Join(list, ","))
+	outb, err := cmd.CombinedOutput()
+	if err != nil {
+		fmt.Println("selftest: seq run failed:", err, string(outb))
+		os.Exit(2)
+	}
+	for _, ln := range strings.Split(strings.TrimSpace(string(outb)), "\n") {
+		f := strings.Fields(ln)
+		if len(f) == 0 {
+			continue
+		}
+		seed := strings.TrimPrefix(f[0], "seed=")
+		if fresh[seed] != strings.TrimSpace(ln) {
+			bad++
+			fmt.Printf("PROCESS-HISTORY DEPENDENCE seed=%s\n  alone:       %s\n  in sequence: %s\n", seed, fresh[seed], ln)
+		} else {
+			fmt.Printf("ok history-independent seed=%s\n", seed)
+		}
+	}
 	if bad > 0 {
 		os.Exit(2)
 	}
